@@ -2,6 +2,7 @@
    tarpc/src/client/stub/retry.rs (Retry).  One Gallina function per Rust function; no proofs
    in this file.
 
+   Every stub hands the caller's context::Context on by value (Context is Copy), untouched:
    RoundRobin::call        next = self.stubs.next(); next.call(ctx, request)
      AtomicCycle::next     let next = self.next.fetch_add(1, Relaxed);      (usize = u64: wraps)
                            &self.elements[next % self.elements.len()]
@@ -9,7 +10,7 @@
      hash_request          hasher.build_hasher(); req.hash(&mut h); h.finish()      (any u64)
    Retry::call             request = Arc::new(request);
                            for i in 1.. {                      (RangeFrom<u32>)
-                               result = self.stub.call(ctx, Arc::clone(&request));
+                               result = self.stub.call(ctx, Arc::clone(&request));   (same ctx)
                                if (self.should_retry)(&result, i) { continue; }
                                return result;
                            }
@@ -17,13 +18,21 @@
    `let n = Step::forward(start, 1); Some(replace(&mut start, n))`; at start = u32::MAX that
    addition panics when the caller is compiled with overflow checks and wraps to 0 otherwise
    (`ovf` below). *)
-From Coq Require Import List NArith Bool.
+From Coq Require Import List NArith ZArith Bool.
 Import ListNotations.
 From TarpcV Require Import Base.
 Local Open Scope N_scope.
 
 Definition W64 : N := 18446744073709551616.
 Definition W32 : N := 4294967296.
+
+(* context::Context as the stubs pass it around: trace id (u128), span id (u64), sampling
+   decision (true = Sampled), deadline in signed ms relative to the instant the script starts
+   (the harness runs under its virtual clock, so this is exact) *)
+Record cx := mkcx { cx_trace : N; cx_span : N; cx_samp : bool; cx_dl : Z }.
+Definition cx_eqb (a b : cx) : bool :=
+  (cx_trace a =? cx_trace b) && (cx_span a =? cx_span b) && Bool.eqb (cx_samp a) (cx_samp b)
+  && (cx_dl a =? cx_dl b)%Z.
 
 (* Result<u64, RpcError> as the stubs pass it around *)
 Inductive sres := SOk (v : N) | SShutdown | SDeadline | SServer (code : N).
@@ -80,9 +89,10 @@ Definition iter_next (ovf : bool) (start : N) : option (N * N) :=
   if start =? W32 - 1 then (if ovf then None else Some (start, 0)) else Some (start, start + 1).
 
 Inductive obs :=
-| OPick (k : N) (rq : N) (resp : sres)     (* backend k received request rq; the stub returned resp *)
+| OPick (k : N) (c : cx) (rq : N) (resp : sres) (* backend k received context c and request rq; the
+                                               stub returned resp *)
 | OCounts (l : list N)                      (* per-backend calls received during a parallel burst *)
-| OCall (rq : N) (res : sres)               (* retry: the inner stub was called with rq, returned res *)
+| OCall (c : cx) (rq : N) (res : sres)     (* retry: the inner stub was called with (c, rq), returned res *)
 | OPol (res : sres) (attempt : N) (d : bool)(* retry: the policy was shown (res, attempt), answered d *)
 | ODone (res : sres)                        (* retry: Retry::call returned res *)
 | OCap                                      (* retry: the harness's cap on inner calls was reached *)
@@ -105,7 +115,7 @@ Definition pol_eval (p : policy) (res : sres) (i : N) : bool :=
 
 (* the loop of Retry::call; fuel = how many inner calls the harness allows *)
 Fixpoint retry_loop (fuel : nat) (ovf : bool) (pol : sres -> N -> bool) (backend : nat -> sres)
-         (rq : N) (ncall : nat) (start : N) : list obs :=
+         (c : cx) (rq : N) (ncall : nat) (start : N) : list obs :=
   match fuel with
   | O => [OCap]
   | S f =>
@@ -114,18 +124,21 @@ Fixpoint retry_loop (fuel : nat) (ovf : bool) (pol : sres -> N -> bool) (backend
     | Some (i, start') =>
       let res := backend ncall in
       let d := pol res i in
-      OCall rq res :: OPol res i d ::
-        (if d then retry_loop f ovf pol backend rq (S ncall) start' else [ODone res])
+      OCall c rq res :: OPol res i d ::
+        (if d then retry_loop f ovf pol backend c rq (S ncall) start' else [ODone res])
     end
   end.
-Definition retry (fuel : nat) (ovf : bool) pol backend rq := retry_loop fuel ovf pol backend rq O 1.
+Definition retry (fuel : nat) (ovf : bool) pol backend c rq :=
+  retry_loop fuel ovf pol backend c rq O 1.
 
 (* what C20 promises of one Retry::call whose policy first declines at attempt k: calls 0..k-1
-   all carry rq, the policy is shown (result of call j, attempt j+1), the k-th result is returned *)
-Definition retry_item (pol : sres -> N -> bool) (backend : nat -> sres) (rq : N) (j : nat) : list obs :=
-  [OCall rq (backend j); OPol (backend j) (N.of_nat (S j)) (pol (backend j) (N.of_nat (S j)))].
-Definition retry_trace (pol : sres -> N -> bool) (backend : nat -> sres) (rq : N) (k : nat) : list obs :=
-  flat_map (retry_item pol backend rq) (seq 0 k) ++ [ODone (backend (k - 1)%nat)].
+   all carry the caller's context c and request rq, the policy is shown (result of call j, attempt j+1), the k-th result is returned *)
+Definition retry_item (pol : sres -> N -> bool) (backend : nat -> sres) (c : cx) (rq : N) (j : nat)
+  : list obs :=
+  [OCall c rq (backend j); OPol (backend j) (N.of_nat (S j)) (pol (backend j) (N.of_nat (S j)))].
+Definition retry_trace (pol : sres -> N -> bool) (backend : nat -> sres) (c : cx) (rq : N) (k : nat)
+  : list obs :=
+  flat_map (retry_item pol backend c rq) (seq 0 k) ++ [ODone (backend (k - 1)%nat)].
 
 (* the mock backends *)
 Definition resp_of (k rq : N) : sres := SOk ((rq + 1000 * (k + 1)) mod W64).
@@ -137,19 +150,19 @@ Inductive cfg :=
 | CCH (b : N) (h : N -> N)                      (* ConsistentHash::with_hasher *)
 | CRetry (pol : sres -> N -> bool) (cap : nat) (ovf : bool).   (* Retry over a scripted backend *)
 Inductive op :=
-| Call (rq : N)                    (* one call through the stub *)
+| Call (c : cx) (rq : N)           (* one call through the stub with context c *)
 | Par (ns : list nat)              (* thread t issues ns[t] calls, all threads concurrently *)
-| RCall (rq : N) (script : list sres).   (* one Retry::call; the inner stub answers by script *)
+| RCall (c : cx) (rq : N) (script : list sres). (* one Retry::call; the inner stub answers by script *)
 
 Definition total (ns : list nat) : nat := fold_right Nat.add O ns.
 
 (* state: the round-robin cursor *)
 Definition step (c : cfg) (cur : N) (o : op) : N * list obs :=
   match c, o with
-  | CRR b, Call rq => (rr_bump cur, [OPick (rr_pick b cur) rq (resp_of (rr_pick b cur) rq)])
+  | CRR b, Call c rq => (rr_bump cur, [OPick (rr_pick b cur) c rq (resp_of (rr_pick b cur) rq)])
   | CRR b, Par ns => let '(l, cur') := rr_picks b cur (total ns) in (cur', [OCounts (tally b l)])
-  | CCH b h, Call rq => (cur, [OPick (ch_pick h b rq) rq (resp_of (ch_pick h b rq) rq)])
-  | CRetry pol cap ovf, RCall rq script => (cur, retry cap ovf pol (script_backend script) rq)
+  | CCH b h, Call c rq => (cur, [OPick (ch_pick h b rq) c rq (resp_of (ch_pick h b rq) rq)])
+  | CRetry pol cap ovf, RCall c rq script => (cur, retry cap ovf pol (script_backend script) c rq)
   | _, _ => (cur, [])
   end.
 Fixpoint run_from (c : cfg) (cur : N) (ops : list op) : list (list obs) * N :=
@@ -176,54 +189,54 @@ Fixpoint zip_add (a b : list N) : list N :=
 Definition lsum (l : list N) : N := fold_right N.add 0 l.
 
 (* round robin: cs = calls received so far by each backend.  Every pick is a valid backend and
-   carries the caller's request; after every call, and after every parallel burst (whose
+   is handed the caller's context and request unchanged; after every call, and after every parallel burst (whose
    per-backend counts must add up to the calls issued), the counts differ by at most one. *)
 Fixpoint mon_rr (b : N) (cs : list N) (ops : list op) (tr : list (list obs)) : bool :=
   match ops, tr with
   | [], [] => true
-  | Call rq :: ops', [OPick k rq' _] :: tr' =>
+  | Call c rq :: ops', [OPick k c' rq' _] :: tr' =>
     let cs' := zip_add cs (tally b [k]) in
-    (k <? b) && (rq' =? rq) && spread_ok cs' && mon_rr b cs' ops' tr'
+    (k <? b) && cx_eqb c' c && (rq' =? rq) && spread_ok cs' && mon_rr b cs' ops' tr'
   | Par ns :: ops', [OCounts l] :: tr' =>
     let cs' := zip_add cs l in
     Nat.eqb (length l) (N.to_nat b) && (lsum l =? N.of_nat (total ns)) && spread_ok cs'
     && mon_rr b cs' ops' tr'
-  | RCall _ _ :: ops', [] :: tr' => mon_rr b cs ops' tr'
+  | RCall _ _ _ :: ops', [] :: tr' => mon_rr b cs ops' tr'
   | _, _ => false
   end.
 
 (* consistent hash: seen = (request, pick) pairs so far.  Every pick is a valid backend,
-   carries the caller's request, and equals the pick of every earlier equal request. *)
+   is handed the caller's context and request unchanged, and equals the pick of every earlier equal request. *)
 Fixpoint seen_pick (seen : list (N * N)) (rq : N) : option N :=
   match seen with [] => None | (q, k) :: r => if q =? rq then Some k else seen_pick r rq end.
 Fixpoint mon_ch (b : N) (seen : list (N * N)) (ops : list op) (tr : list (list obs)) : bool :=
   match ops, tr with
   | [], [] => true
-  | Call rq :: ops', [OPick k rq' _] :: tr' =>
-    (k <? b) && (rq' =? rq)
+  | Call c rq :: ops', [OPick k c' rq' _] :: tr' =>
+    (k <? b) && cx_eqb c' c && (rq' =? rq)
     && match seen_pick seen rq with Some k' => k =? k' | None => true end
     && mon_ch b ((rq, k) :: seen) ops' tr'
-  | Par _ :: ops', [] :: tr' | RCall _ _ :: ops', [] :: tr' => mon_ch b seen ops' tr'
+  | Par _ :: ops', [] :: tr' | RCall _ _ _ :: ops', [] :: tr' => mon_ch b seen ops' tr'
   | _, _ => false
   end.
 
-(* retry: the inner stub is called with the caller's request every time; the policy is shown
+(* retry: the inner stub is called with the caller's context and request every time; the policy is shown
    exactly the result of that call and the attempt numbers 1, 2, 3, ...; the loop goes on while
    the policy says so and the first result the policy declines is returned unchanged.  A run cut
    off by the harness's cap is accepted as a prefix. *)
-Fixpoint mon_retry (rq : N) (i : N) (os : list obs) : bool :=
+Fixpoint mon_retry (c : cx) (rq : N) (i : N) (os : list obs) : bool :=
   match os with
   | [OCap] => true
-  | OCall q res :: OPol res' a d :: rest =>
-    (q =? rq) && sres_eqb res res' && (a =? i)
-    && (if d then mon_retry rq (i + 1) rest
+  | OCall c' q res :: OPol res' a d :: rest =>
+    cx_eqb c' c && (q =? rq) && sres_eqb res res' && (a =? i)
+    && (if d then mon_retry c rq (i + 1) rest
         else match rest with [ODone r] => sres_eqb r res | _ => false end)
   | _ => false
   end.
 Fixpoint mon_rt (ops : list op) (tr : list (list obs)) : bool :=
   match ops, tr with
   | [], [] => true
-  | RCall rq _ :: ops', os :: tr' => mon_retry rq 1 os && mon_rt ops' tr'
+  | RCall c rq _ :: ops', os :: tr' => mon_retry c rq 1 os && mon_rt ops' tr'
   | _ :: ops', [] :: tr' => mon_rt ops' tr'
   | _, _ => false
   end.
@@ -240,9 +253,9 @@ Definition c20_ok (c : cfg) (ops : list op) (tr : list (list obs)) : bool :=
 Fixpoint calls_of (ops : list op) : N :=
   match ops with
   | [] => 0
-  | Call _ :: r => 1 + calls_of r
+  | Call _ _ :: r => 1 + calls_of r
   | Par ns :: r => N.of_nat (total ns) + calls_of r
-  | RCall _ _ :: r => calls_of r
+  | RCall _ _ _ :: r => calls_of r
   end.
 Definition wf (c : cfg) (ops : list op) : Prop :=
   match c with
@@ -254,9 +267,9 @@ Definition wf (c : cfg) (ops : list op) : Prop :=
 (* used by the correspondence check *)
 Definition obs_eqb (a b : obs) : bool :=
   match a, b with
-  | OPick k q r, OPick k' q' r' => (k =? k') && (q =? q') && sres_eqb r r'
+  | OPick k c q r, OPick k' c' q' r' => (k =? k') && cx_eqb c c' && (q =? q') && sres_eqb r r'
   | OCounts l, OCounts l' => list_eqb N.eqb l l'
-  | OCall q r, OCall q' r' => (q =? q') && sres_eqb r r'
+  | OCall c q r, OCall c' q' r' => cx_eqb c c' && (q =? q') && sres_eqb r r'
   | OPol r a d, OPol r' a' d' => sres_eqb r r' && (a =? a') && Bool.eqb d d'
   | ODone r, ODone r' => sres_eqb r r'
   | OCap, OCap | OPanic, OPanic => true
